@@ -705,6 +705,11 @@ class Exec:
             # unpacking an opaque value: its items (a wrong arity would raise in Python; the
             # contracts that produce such values state their arity)
             return [self.prop.theory.item(v, z3.IntVal(i)) for i in range(n)]
+        if isinstance(v, SeqV):
+            # unpacking a list: its length must be the number of targets (else ValueError)
+            if not self.decide(v.n == n):
+                raise RaiseEx("ValueError", getattr(self, "cur_line", 0))
+            return [v.get(z3.IntVal(i)) for i in range(n)]
         raise Unsupported(f"unpacking of {type(v).__name__}")
 
     # ---- loops --------------------------------------------------------------------
@@ -1534,6 +1539,10 @@ class Exec:
 
     def as_index(self, idx):
         """A sequence index; an opaque value used as an index is a boxed int."""
+        if isinstance(idx, OptV):
+            if self.decide(idx.isnone):
+                raise RaiseEx("TypeError", getattr(self, "cur_line", 0))  # list indices must be integers, not NoneType
+            idx = idx.val
         if is_z3(idx) and idx.sort() == V.Val:
             return self.prop.theory.unbox_int(idx)
         return to_num(idx)
